@@ -169,4 +169,12 @@ def run(E: Engine, rep: Report, tier: str) -> dict:
     sr = E.method(SEQ, "_set_register")
     rep.check("seq._register = reg" in norm(sr.node) and "seq._qids = qids" in norm(sr.node), "MAP", "Sequence._set_register|register-and-ids-updated", "the built sequence gets the concrete register and its ids", "_set_register no longer updates both the register and the qubit-id set of the built sequence", E.where(sr))
     rep.floor("MAP", 3)
-    return {"replay_sites": n_replay, "value_writers": sorted(writers)}
+    # ARGS: queries on a parametrized sequence read the stored (not yet executed) calls; they may index the positional
+    # arguments only where the argument must be positional -- otherwise a call the direct construction accepts makes
+    # the template raise IndexError
+    from .. import callargs
+
+    scopes = [f for f in callargs.default_scopes(E, ("pulser.sequence",)) if not f.module.name.endswith("_switch_device")]
+    extra = callargs.check(E, rep, scopes, "ARGS")
+    rep.floor("ARGS", 3)
+    return {"replay_sites": n_replay, "value_writers": sorted(writers), **extra}
